@@ -173,18 +173,29 @@ CHECKS = {
              "RTSP binding is interleaved TCP only; the PS binding bypasses the gb28181.PubSession socket loop.",
         ref="6/C07"),
     "C15": dict(
-        technique="TLA+ spec Backpressure (bounded queue / write in flight / wire; fine-grained model + call-level model; "
-                  "TLC exhaustive incl. liveness) + edge-cover replay into a real logic.Group with sub sessions on gated "
-                  "in-memory connections + TLC trace validation",
+        technique="TLA+ spec Backpressure (bounded queue of multi-part elements / write in flight / wire; fine-grained model + "
+                  "call-level model with a second stream; TLC exhaustive incl. liveness, simulation) + replay into a real "
+                  "logic.Group / ServerManager with sub sessions on gated in-memory connections + TLC trace validation",
         text="TLC checks NoBlocking, QueueBound, WholeUnits on every interleaving of the fan-out loop with the writer "
              "goroutines for queue sizes 1..3 and EventuallyClosed under fairness of timers only; a negative "
-             "configuration (header and payload as two elements) must violate WholeUnits; covering paths (stall / resume "
-             "/ read-one / deadline / sweep anywhere) are replayed for RTMP, HTTP-FLV, WS-FLV, HTTP-TS, WS-TS against real "
-             "sessions and TLC decides the part in flight, deliveries, closure, non-blocking, the 100 ms latency bound "
-             "and the final framing of each consumer's byte stream.",
-        note="Trusted: gated net.Conn with virtual write deadline; goroutine quiescence read from runtime.Stack; latency is "
-             "wall-clock (slow scenarios are re-run, reported only if they reproduce); RTSP interleaved and the merge "
-             "writer are not covered.",
+             "configuration (header and payload as two elements) must violate WholeUnits; schedules (stall / resume / "
+             "read-one / deadline / sweep / publisher leave and return / publish on a second stream / stat anywhere) are "
+             "replayed for RTMP, RTMP behind the merge writer (Writev), HTTP-FLV, WS-FLV, HTTP-TS, WS-TS, RTSP interleaved "
+             "and RTSP over WebSocket against real sessions, and TLC decides the part in flight, deliveries, closure, "
+             "non-blocking of every call into lal (incl. the other stream's publisher, ticks and stat calls), the 100 ms "
+             "latency bound and the final framing of each consumer's byte stream.",
+        note="Trusted: independent readers in harness/proj plus the $-frame reader in drv/stall.go; the gated net.Conn with a "
+             "virtual write deadline, which tells queue elements apart by naza's per-element SetWriteDeadline call; goroutine "
+             "quiescence and blocked calls read from runtime.Stack; verif hooks VerifStartPlay (RTMP, no handshake) and "
+             "VerifSetServerCommandSessionWriteChanSize (RTSP; the subscriber is put into the post-PLAY state through the "
+             "exported session API). Before most calls the writer of a stalled idle consumer is kept busy with a null unit "
+             "written through the session's own write path (the slow-writer branch of the enqueue / writer race); the other "
+             "branches are covered by the exhaustive fine-grained model only (2-9 % of scenarios are cut short there). RTSP "
+             "liveness is accounted at enqueue and has no write deadline: disconnection is by the sweep. Quick takes its "
+             "schedules from TLC simulation of the call-level model, thorough from its exhaustive edge cover. Latency is "
+             "wall-clock; a slow scenario is re-run up to 3 times and reported only if it reproduces. Not covered: RTSP over "
+             "UDP, RTSP command responses under back-pressure, the command loop itself, removal of a cut session by the "
+             "server read loop.",
         ref="6/C15"),
     "C17": dict(
         technique="TLA+ spec Lifecycle (relay pull module: enable / in-flight / attached / retry budget / auto-stop clock; relay "
